@@ -107,6 +107,11 @@ def schedule_table(prog):
 
 def check(ctx):
     prog = ctx.prog
+    # "a fresh certificate is not renewed again": the attempt leaves BOTH files behind (a key that is used but not stored makes the next
+    # schedule_renewal see a missing file and renew at once) — the request-certificate traces of C02/C03
+    from .request_model import request_traces as _rtr, store_rule as _store_rule
+    if _rtr(prog) is not None:
+        _store_rule(ctx, ctx.rule("S1", "[shared with C02/C03] key and certificate are installed on every successful attempt"), _rtr(prog))
     R1 = ctx.rule("R1", "renew_in only when files exist and no identifier is missing; early answers are Duration::ZERO; tests have the right scope and direction")
     b = prog.async_body(SR)
     sched = schedule_table(prog)
